@@ -42,6 +42,19 @@ type scase struct {
 	Rot srot
 	Ops []sop
 	Obs []sobs
+	// twin runs (filled by c09Twins; not part of the model comparison of outputs)
+	Family   string    `json:",omitempty"` // generator family (coverage only)
+	HasStrip bool      `json:",omitempty"`
+	Strip    []sop     `json:",omitempty"` // the sequence run on the second real store
+	HasTLog  bool      `json:",omitempty"`
+	TLog     []c09Call `json:",omitempty"` // the tree calls fed to a bare real ChainState
+}
+
+// c09Call: one call on the IAVL tree (set remove save) or a reopen of the database
+type c09Call struct {
+	Kind string
+	Key  int
+	Val  []byte
 }
 
 func keyBytes(k int) []byte { return []byte(fmt.Sprintf("k%d", k)) }
@@ -266,6 +279,351 @@ func hashes(c scase) []string {
 	return hs
 }
 
+// ---- the order in which writes reach the tree -------------------------------------------------
+// c09Mirror predicts the calls State.Write / State.Commit make on the IAVL tree: the surviving
+// writes in first-write order (a committed session's keys are appended to the block cache in the
+// session's own first-write order).  It is NOT trusted: Coq checks (vm_compute) that the list is
+// exactly the model's tree_calls, and c09TreeTwin feeds it to a bare real ChainState whose root
+// hashes must be those of the store under test.  The same pass measures the input distribution.
+
+type c09Ov struct {
+	vals map[int][]byte
+	keys []int
+}
+
+func c09NewOv() *c09Ov { return &c09Ov{vals: map[int][]byte{}} }
+func (o *c09Ov) set(k int, v []byte) {
+	if _, ok := o.vals[k]; !ok {
+		o.keys = append(o.keys, k)
+	}
+	o.vals[k] = v
+}
+
+type c09Stats struct {
+	Blocks, CommittedSess, DiscardedSess, ReplacedSess, DroppedSess int
+	NewLeaves                                                       map[string]int // histogram: leaves added by a commit
+	FreshKeysWritten                                                map[string]int // histogram: distinct keys not in the tree written per block (incl. discarded)
+	DiscardThenCommitBlocks                                         int            // a key first touched by a discarded session is written by a later committed session of the block
+	OrderSensitiveBlocks                                            int            // ... after that session wrote another key the discarded one had not touched
+	OrderSensitiveGe3                                               int            // ... and the commit adds >= 3 leaves
+}
+
+func c09Bucket(n int) string {
+	if n >= 6 {
+		return "6+"
+	}
+	return fmt.Sprintf("%d", n)
+}
+
+func c09Mirror(ops []sop, st *c09Stats) []c09Call {
+	calls := []c09Call{}
+	cache := c09NewOv()
+	var sess *c09Ov
+	tree := map[int]bool{}      // working tree (keys only)
+	saved := map[int]bool{}     // last saved version
+	stale := map[int]bool{}     // keys first touched in this block by a session that was not committed
+	blockKeys := map[int]bool{} // keys touched in this block
+	dtc, osens := false, false
+	flush := func() {
+		for _, k := range cache.keys {
+			v := cache.vals[k]
+			if bytes.Equal(v, tomb) {
+				calls = append(calls, c09Call{Kind: "remove", Key: k})
+				delete(tree, k)
+			} else {
+				calls = append(calls, c09Call{Kind: "set", Key: k, Val: v})
+				tree[k] = true
+			}
+		}
+	}
+	dropSess := func(how *int) {
+		if sess != nil {
+			*how++
+			for _, k := range sess.keys {
+				if _, in := cache.vals[k]; !in {
+					stale[k] = true
+				}
+			}
+		}
+		sess = nil
+	}
+	newBlock := func() {
+		cache, stale, blockKeys, dtc, osens = c09NewOv(), map[int]bool{}, map[int]bool{}, false, false
+	}
+	for _, o := range ops {
+		switch o.Kind {
+		case "set", "delete":
+			v := o.Val
+			if o.Kind == "delete" {
+				v = tomb
+			}
+			blockKeys[o.Key] = true
+			if sess != nil {
+				sess.set(o.Key, v)
+			} else {
+				cache.set(o.Key, v)
+			}
+		case "begin":
+			dropSess(&st.ReplacedSess)
+			sess = c09NewOv()
+		case "discard":
+			dropSess(&st.DiscardedSess)
+		case "commit":
+			if sess != nil {
+				st.CommittedSess++
+				other := false
+				for _, k := range sess.keys {
+					_, in := cache.vals[k]
+					if stale[k] && !in {
+						dtc = true
+						if other {
+							osens = true
+						}
+					}
+					if !stale[k] && !in {
+						other = true
+					}
+					cache.set(k, sess.vals[k])
+				}
+				sess = nil
+			}
+		case "write":
+			flush()
+		case "blockcommit":
+			dropSess(&st.DroppedSess)
+			added := 0
+			flush()
+			for k := range tree {
+				if !saved[k] {
+					added++
+				}
+			}
+			calls = append(calls, c09Call{Kind: "save"})
+			st.Blocks++
+			st.NewLeaves[c09Bucket(added)]++
+			fresh := 0
+			for k := range blockKeys {
+				if !saved[k] {
+					fresh++
+				}
+			}
+			st.FreshKeysWritten[c09Bucket(fresh)]++
+			if dtc {
+				st.DiscardThenCommitBlocks++
+			}
+			if osens {
+				st.OrderSensitiveBlocks++
+				if added >= 3 {
+					st.OrderSensitiveGe3++
+				}
+			}
+			saved = map[int]bool{}
+			for k := range tree {
+				saved[k] = true
+			}
+			newBlock()
+		case "fresh":
+			dropSess(&st.DroppedSess)
+			newBlock()
+		case "reopen":
+			dropSess(&st.DroppedSess)
+			newBlock()
+			tree = map[int]bool{}
+			for k := range saved {
+				tree[k] = true
+			}
+			calls = append(calls, c09Call{Kind: "reopen"})
+		}
+	}
+	return calls
+}
+
+// c09TreeTwin: a bare real ChainState (no State, no caches) fed the given calls; root hashes of its commits
+func c09TreeTwin(rot srot, calls []c09Call) []string {
+	s := &storeUnderTest{db: tmdb.NewMemDB(), rot: rot}
+	s.open()
+	hs := []string{}
+	for _, c := range calls {
+		k := storage.StoreKey(keyBytes(c.Key))
+		switch c.Kind {
+		case "set":
+			_ = s.cs.Set(k, c.Val)
+		case "remove":
+			_, _ = s.cs.Delete(k)
+		case "save":
+			h, _ := s.cs.Commit()
+			hs = append(hs, hex.EncodeToString(h))
+		case "reopen":
+			s.open()
+		}
+	}
+	return hs
+}
+
+// ---- generators aimed at the write order -------------------------------------------------------
+
+func c09Perm(r *rand.Rand, xs []int) []int {
+	out := append([]int{}, xs...)
+	r.Shuffle(len(out), func(i, j int) { out[i], out[j] = out[j], out[i] })
+	return out
+}
+
+// genBlocks: block-shaped histories.  Every block has an alphabet of 3..6 keys that are not in the
+// tree yet (plus up to two old ones); 2..5 transaction sessions write random sub-permutations of
+// it and are committed, discarded, or silently replaced by the next begin; reads are interleaved.
+func c09GenBlocks(r *rand.Rand, nblocks int, gasMode int) []sop {
+	ops := []sop{}
+	lim := int64(-1)
+	if gasMode == 1 {
+		lim = 1 << 40
+		ops = append(ops, sop{Kind: "fresh", Limit: lim})
+	}
+	next, ver := 0, int64(0)
+	old := []int{}
+	val := func() []byte { return []byte{byte('a' + r.Intn(26)), byte('0' + r.Intn(10))} }
+	read := func(alpha []int) {
+		k := alpha[r.Intn(len(alpha))]
+		switch r.Intn(3) {
+		case 0:
+			ops = append(ops, sop{Kind: "get", Key: k})
+		case 1:
+			ops = append(ops, sop{Kind: "exists", Key: k})
+		default:
+			v := int64(0)
+			if ver > 0 {
+				v = 1 + r.Int63n(ver)
+			}
+			ops = append(ops, sop{Kind: "getver", Key: k, Ver: v})
+		}
+	}
+	write := func(k int) {
+		if r.Intn(100) < 15 {
+			ops = append(ops, sop{Kind: "delete", Key: k})
+		} else {
+			ops = append(ops, sop{Kind: "set", Key: k, Val: val()})
+		}
+	}
+	for b := 0; b < nblocks; b++ {
+		nf := 3 + r.Intn(4)
+		alpha := []int{}
+		for i := 0; i < nf; i++ {
+			alpha = append(alpha, next)
+			next++
+		}
+		freshKeys := append([]int{}, alpha...)
+		for i := 0; i < 2 && len(old) > 0; i++ {
+			if r.Intn(2) == 0 {
+				alpha = append(alpha, old[r.Intn(len(old))])
+			}
+		}
+		nsess := 2 + r.Intn(4)
+		for si := 0; si < nsess; si++ {
+			if r.Intn(6) == 0 {
+				write(alpha[r.Intn(len(alpha))]) // a write outside any session
+			}
+			ops = append(ops, sop{Kind: "begin"})
+			how := r.Intn(100) // <50 committed, <82 discarded, else left open (replaced / dropped)
+			nw := 1 + r.Intn(len(alpha))
+			if how >= 50 {
+				nw = 1 + r.Intn(2)
+			}
+			for _, k := range c09Perm(r, alpha)[:nw] {
+				if r.Intn(100) < 25 {
+					read(alpha)
+				}
+				write(k)
+				if r.Intn(100) < 8 {
+					write(k)
+				}
+			}
+			if how < 50 {
+				ops = append(ops, sop{Kind: "commit"})
+			} else if how < 82 {
+				ops = append(ops, sop{Kind: "discard"})
+			}
+			if r.Intn(100) < 20 {
+				read(alpha)
+			}
+			if r.Intn(100) < 4 {
+				ops = append(ops, sop{Kind: "write"})
+			}
+		}
+		ops = append(ops, sop{Kind: "blockcommit"})
+		ver++
+		old = append(old, freshKeys...)
+		for i := r.Intn(3); i > 0; i-- {
+			read(alpha)
+		}
+		switch x := r.Intn(100); {
+		case x < 6:
+			ops = append(ops, sop{Kind: "reopen"})
+			if lim >= 0 {
+				ops = append(ops, sop{Kind: "fresh", Limit: lim})
+			}
+		case x < 18:
+			ops = append(ops, sop{Kind: "fresh", Limit: lim})
+		}
+	}
+	return ops
+}
+
+// sweep: every small schedule of the shape  [pre keys committed in an earlier block]
+// [a session touching none / one / two (ordered) of three new keys, not committed]
+// [a committed session writing a permutation of the three new keys]  block commit.
+func c09Sweep(emit func([]sop)) {
+	perms := [][]int{{0, 1, 2}, {0, 2, 1}, {1, 0, 2}, {1, 2, 0}, {2, 0, 1}, {2, 1, 0}}
+	touches := [][]int{{}}
+	for a := 0; a < 3; a++ {
+		touches = append(touches, []int{a})
+		for b := 0; b < 3; b++ {
+			if a != b {
+				touches = append(touches, []int{a, b})
+			}
+		}
+	}
+	for pre := 0; pre <= 2; pre++ {
+		for _, p := range perms {
+			for _, t := range touches {
+				for variant := 0; variant < 4; variant++ { // set/delete x discard/replaced
+					if len(t) == 0 && variant > 0 {
+						continue
+					}
+					ops := []sop{}
+					// new keys 10,11,12 sort between/around the old keys 0 and 20 ("k0" < "k10".. < "k20")
+					if pre >= 1 {
+						ops = append(ops, sop{Kind: "set", Key: 0, Val: []byte("p")})
+					}
+					if pre >= 2 {
+						ops = append(ops, sop{Kind: "set", Key: 20, Val: []byte("q")})
+					}
+					if pre >= 1 {
+						ops = append(ops, sop{Kind: "blockcommit"})
+					}
+					if len(t) > 0 {
+						ops = append(ops, sop{Kind: "begin"})
+						for _, k := range t {
+							if variant&1 == 0 {
+								ops = append(ops, sop{Kind: "set", Key: 10 + k, Val: []byte("x")})
+							} else {
+								ops = append(ops, sop{Kind: "delete", Key: 10 + k})
+							}
+						}
+						if variant&2 == 0 {
+							ops = append(ops, sop{Kind: "discard"})
+						}
+					}
+					ops = append(ops, sop{Kind: "begin"})
+					for i, k := range p {
+						ops = append(ops, sop{Kind: "set", Key: 10 + k, Val: []byte{byte('1' + i)}})
+					}
+					ops = append(ops, sop{Kind: "commit"}, sop{Kind: "blockcommit"}, sop{Kind: "get", Key: 10}, sop{Kind: "getver", Key: 12, Ver: int64(1 + (pre+1)/2)})
+					emit(ops)
+				}
+			}
+		}
+	}
+}
+
 func coqVal(b []byte) string {
 	parts := make([]string, len(b))
 	for i, x := range b {
@@ -338,8 +696,32 @@ func coqCase(c scase) string {
 		ops[i] = coqOp(c.Ops[i])
 		obs[i] = coqObs(c.Obs[i])
 	}
-	return fmt.Sprintf("{| c_rot := {| recent := %d; every := %d; cycles := %d |};\n   c_ops := [%s];\n   c_obs := [%s] |}",
-		c.Rot.Recent, c.Rot.Every, c.Rot.Cycles, strings.Join(ops, "; "), strings.Join(obs, "; "))
+	strip, tlog := "None", "None"
+	if c.HasStrip {
+		st := make([]string, len(c.Strip))
+		for i := range c.Strip {
+			st[i] = coqOp(c.Strip[i])
+		}
+		strip = "Some [" + strings.Join(st, "; ") + "]"
+	}
+	if c.HasTLog {
+		tl := make([]string, len(c.TLog))
+		for i, t := range c.TLog {
+			switch t.Kind {
+			case "set":
+				tl[i] = fmt.Sprintf("CSet %d%%N %s", t.Key, coqVal(t.Val))
+			case "remove":
+				tl[i] = fmt.Sprintf("CRemove %d%%N", t.Key)
+			case "save":
+				tl[i] = "CSave"
+			default:
+				tl[i] = "CReopen"
+			}
+		}
+		tlog = "Some [" + strings.Join(tl, "; ") + "]"
+	}
+	return fmt.Sprintf("{| c_rot := {| recent := %d; every := %d; cycles := %d |};\n   c_ops := [%s];\n   c_obs := [%s];\n   c_strip := %s;\n   c_tlog := %s |}",
+		c.Rot.Recent, c.Rot.Every, c.Rot.Cycles, strings.Join(ops, "; "), strings.Join(obs, "; "), strip, tlog)
 }
 
 type c09Report struct {
@@ -350,6 +732,11 @@ type c09Report struct {
 	TwinRuns     int            `json:"twin_runs"`
 	TwinCommits  int            `json:"twin_commits_compared"`
 	TwinFailures []twinFail     `json:"twin_failures"`
+	TreeRuns     int            `json:"tree_twin_runs"`
+	TreeCommits  int            `json:"tree_twin_commits_compared"`
+	TreeFailures []twinFail     `json:"tree_twin_failures"`
+	Families     map[string]int `json:"families"`
+	Dist         c09Stats       `json:"write_order_distribution"`
 	Distinct     int            `json:"distinct_cases"`
 	Samples      []string       `json:"samples"`
 	Files        []string       `json:"files"`
@@ -361,6 +748,7 @@ type twinFail struct {
 	Stripped []string `json:"stripped"`
 	Full     []string `json:"hashes_full"`
 	Strip    []string `json:"hashes_stripped"`
+	First    int      `json:"first_differing_commit"`
 }
 
 func c09Main(args []string) int {
@@ -371,6 +759,8 @@ func c09Main(args []string) int {
 	enumLen := fs.Int("enum", 3, "exhaustive enumeration length (0 = off)")
 	outDir := fs.String("out", ".", "output directory")
 	shard := fs.Int("shard", 400, "cases per Coq file")
+	nblk := fs.Int("nblocks", -1, "number of block-shaped histories (-1: same as -n)")
+	sweep := fs.Bool("sweep", true, "run the exhaustive discarded-session / write-order sweep")
 	corpus := fs.String("corpus", "", "JSON corpus file of op sequences to run first")
 	fs.Parse(args)
 
@@ -389,14 +779,40 @@ func c09Main(args []string) int {
 				return 2
 			}
 			for _, c := range cc {
-				cases = append(cases, runCase(c.Rot, c.Ops))
+				rc := runCase(c.Rot, c.Ops)
+				rc.Family = "corpus"
+				cases = append(cases, rc)
 			}
 		}
 	}
 	if *enumLen > 0 {
 		for l := 1; l <= *enumLen; l++ {
-			enumOps(l, func(ops []sop) { cases = append(cases, runCase(srot{1, 0, 0}, ops)) })
+			enumOps(l, func(ops []sop) {
+				rc := runCase(srot{1, 0, 0}, ops)
+				rc.Family = "enum"
+				cases = append(cases, rc)
+			})
 		}
+	}
+	if *sweep {
+		c09Sweep(func(ops []sop) {
+			rc := runCase(srot{0, 0, 0}, ops)
+			rc.Family = "sweep"
+			cases = append(cases, rc)
+		})
+	}
+	if *nblk < 0 {
+		*nblk = *nrand
+	}
+	for i := 0; i < *nblk; i++ {
+		rot := rots[r.Intn(len(rots))]
+		nb := 2 + r.Intn(3)
+		if i%10 == 9 {
+			nb = 8
+		}
+		rc := runCase(rot, c09GenBlocks(r, nb, i%2))
+		rc.Family = "blocks"
+		cases = append(cases, rc)
 	}
 	for i := 0; i < *nrand; i++ {
 		rot := rots[r.Intn(len(rots))]
@@ -409,13 +825,17 @@ func c09Main(args []string) int {
 		if i%10 == 9 {
 			n = *rlen * 5
 		}
-		cases = append(cases, runCase(rot, genOps(r, n, 2+r.Intn(4), allowTomb, gasMode)))
+		rc := runCase(rot, genOps(r, n, 2+r.Intn(4), allowTomb, gasMode))
+		rc.Family = "random"
+		cases = append(cases, rc)
 	}
 
-	rep := c09Report{OpHist: map[string]int{}, ObsHist: map[string]int{}}
+	rep := c09Report{OpHist: map[string]int{}, ObsHist: map[string]int{}, Families: map[string]int{},
+		Dist: c09Stats{NewLeaves: map[string]int{}, FreshKeysWritten: map[string]int{}}}
 	seen := map[string]bool{}
 	for _, c := range cases {
 		rep.Cases++
+		rep.Families[c.Family]++
 		rep.Steps += len(c.Ops)
 		var sb strings.Builder
 		for i, o := range c.Ops {
@@ -428,32 +848,63 @@ func c09Main(args []string) int {
 	}
 	rep.Distinct = len(seen)
 
-	// twin runs: root hash must not depend on reads / discarded sessions (gas-free sequences and
-	// sequences with a huge limit; with a small limit the gas counter legitimately matters)
-	for i, c := range cases {
+	// twin runs (gas-free sequences and sequences with a huge limit; with a small limit the gas
+	// counter legitimately matters):
+	//  (a) a second real store runs strip(ops): the root hash after every commit must not depend
+	//      on reads / discarded sessions;
+	//  (b) a bare real ChainState is fed the tree calls in the model's order (c09Mirror, checked
+	//      against Store.v by Coq): the store must have made these calls in this order.
+	firstDiff := func(a, b []string) int {
+		for i := 0; i < len(a) && i < len(b); i++ {
+			if a[i] != b[i] {
+				return i
+			}
+		}
+		if len(a) != len(b) {
+			if len(a) < len(b) {
+				return len(a)
+			}
+			return len(b)
+		}
+		return -1
+	}
+	for i := range cases {
+		c := &cases[i]
 		small := false
 		for _, o := range c.Ops {
 			if o.Kind == "fresh" && o.Limit >= 0 && o.Limit < 1<<30 {
 				small = true
 			}
 		}
-		if small || len(c.Ops) < 2 {
+		if small {
 			continue
 		}
-		st := strip(c.Ops)
-		t := runCase(c.Rot, st)
-		rep.TwinRuns++
-		h1, h2 := hashes(c), hashes(t)
-		rep.TwinCommits += len(h1)
-		if strings.Join(h1, ",") != strings.Join(h2, ",") {
-			f := twinFail{Case: i, Full: h1, Strip: h2}
+		h1 := hashes(*c)
+		mkFail := func(h2 []string, st []sop) twinFail {
+			f := twinFail{Case: i, Full: h1, Strip: h2, First: firstDiff(h1, h2)}
 			for _, o := range c.Ops {
 				f.Ops = append(f.Ops, coqOp(o))
 			}
 			for _, o := range st {
 				f.Stripped = append(f.Stripped, coqOp(o))
 			}
-			rep.TwinFailures = append(rep.TwinFailures, f)
+			return f
+		}
+		c.HasTLog, c.TLog = true, c09Mirror(c.Ops, &rep.Dist)
+		rep.TreeRuns++
+		rep.TreeCommits += len(h1)
+		if h2 := c09TreeTwin(c.Rot, c.TLog); firstDiff(h1, h2) >= 0 {
+			rep.TreeFailures = append(rep.TreeFailures, mkFail(h2, nil))
+		}
+		if len(c.Ops) < 2 {
+			continue
+		}
+		c.HasStrip, c.Strip = true, strip(c.Ops)
+		t := runCase(c.Rot, c.Strip)
+		rep.TwinRuns++
+		rep.TwinCommits += len(h1)
+		if h2 := hashes(t); firstDiff(h1, h2) >= 0 {
+			rep.TwinFailures = append(rep.TwinFailures, mkFail(h2, c.Strip))
 		}
 	}
 
@@ -477,7 +928,9 @@ func c09Main(args []string) int {
 		fmt.Fprintf(&b, "Definition MM := Eval vm_compute in flat2 (model_mismatches %d cases).\n", lo)
 		fmt.Fprintf(&b, "Definition SV := Eval vm_compute in flat3 (spec_violations %d cases).\n", lo)
 		b.WriteString("Definition NG := Eval vm_compute in Z.of_nat (count_guarded cases).\n")
-		b.WriteString("Print MM.\nPrint SV.\nPrint NG.\n")
+		fmt.Fprintf(&b, "Definition SM := Eval vm_compute in flat1 (strip_mismatches %d cases).\n", lo)
+		fmt.Fprintf(&b, "Definition TM := Eval vm_compute in flat1 (tlog_mismatches %d cases).\n", lo)
+		b.WriteString("Print MM.\nPrint SV.\nPrint NG.\nPrint SM.\nPrint TM.\n")
 		name := fmt.Sprintf("%s/c09_cases_%d.v", *outDir, s)
 		if err := os.WriteFile(name, b.Bytes(), 0644); err != nil {
 			fmt.Fprintln(os.Stderr, err)
@@ -493,6 +946,7 @@ func c09Main(args []string) int {
 	_ = os.WriteFile(*outDir+"/c09_cases.json", all, 0644)
 	bz, _ := json.MarshalIndent(rep, "", " ")
 	_ = os.WriteFile(*outDir+"/c09_report.json", bz, 0644)
-	say("c09: %d cases, %d steps, %d twin runs, %d twin failures\n", rep.Cases, rep.Steps, rep.TwinRuns, len(rep.TwinFailures))
+	say("c09: %d cases, %d steps, %d twin runs, %d twin failures, %d tree-twin runs, %d tree-twin failures\n",
+		rep.Cases, rep.Steps, rep.TwinRuns, len(rep.TwinFailures), rep.TreeRuns, len(rep.TreeFailures))
 	return 0
 }
